@@ -289,6 +289,7 @@ def generate(names=None) -> tuple[bool, str]:
     GGEN.mkdir(exist_ok=True)
     names = list(names) if names is not None else list(STRUCTURAL) + list(formulas.SLICES)
     ok, log = True, []
+    generate.failed = {}
     for nm in names:
         if nm in STRUCTURAL:
             try:
@@ -296,14 +297,33 @@ def generate(names=None) -> tuple[bool, str]:
                 log.append(f'{nm}: ok')
             except Exception as e:  # noqa: BLE001
                 ok = False
+                generate.failed[nm] = f'{type(e).__name__}: {e}'
                 _write(GGEN / f'{nm}.lean', formulas.stub(f'{nm}: {type(e).__name__}: {e}'))
                 log.append(f'{nm}: {type(e).__name__}: {e}')
         else:
             good, text, msg = formulas.render(nm)
             _write(GGEN / f'{nm}.lean', text)
             ok = ok and good
+            if not good:
+                generate.failed[nm] = msg
             log.append(msg if not good else f'{nm}: ok')
     return ok, '; '.join(log)
+
+
+generate.failed = {}
+
+# slice -> the proof modules that state obligations about it AND nothing else.  When such a slice can no longer be translated (the code
+# was rewritten in a way the translator does not understand) these modules are left out of the run: the property is then carried by the
+# hand-written model, its theorems and the correspondence check alone, exactly as for the code that was never translated, the check says
+# so in a SLICE-NOTE line and searches for a failing input with the enlarged budget.  Slices whose definitions are used inside a property's
+# main proof module (Moves -> C10, CacheKeys -> C16) are not listed: for them an untranslatable source is a broken obligation.
+SLICE_MODULES = {
+    'JumpStep': ['GProofs.C04Gen'], 'PairGuard': ['GProofs.C12Gen'],
+    'FormulasC01': ['GProofs.C01Gen'], 'FormulasC02': ['GProofs.C02Gen'], 'FormulasC05': ['GProofs.C05Gen'], 'FormulasC06': ['GProofs.C06Gen'],
+    'FormulasC08': ['GProofs.C08Gen'], 'FormulasC09': ['GProofs.C09Gen'], 'FormulasC10': ['GProofs.C10Gen'], 'FormulasC11': ['GProofs.C11Gen'],
+    'FormulasC12': ['GProofs.C12Win'], 'FormulasC14': ['GProofs.C14Gen'], 'FormulasC17': ['GProofs.C17Gen'], 'FormulasC18': ['GProofs.C18Gen'],
+    'FormulasC19': ['GProofs.C19Gen'], 'FormulasC20': ['GProofs.C20Gen'],
+}
 
 
 def gen_for(*names):
